@@ -289,6 +289,27 @@ func (vc *VC) wfDepth(t types.Type, x string, depth int) string {
 	return ""
 }
 
+// refsBelow: facts "every slice/pointer/chan/map held directly in struct value x is below alloc".
+func (vc *VC) refsBelow(t types.Type, x, alloc string, depth int) []string {
+	if depth > 3 {
+		return nil
+	}
+	var out []string
+	switch u := t.Underlying().(type) {
+	case *types.Pointer, *types.Chan, *types.Map:
+		out = append(out, fmt.Sprintf("(< %s %s)", x, alloc))
+	case *types.Slice:
+		out = append(out, fmt.Sprintf("(< (sl_ref %s) %s)", x, alloc))
+	case *types.Struct:
+		s := vc.sortOf(t)
+		for i := 0; i < u.NumFields(); i++ {
+			f := u.Field(i)
+			out = append(out, vc.refsBelow(f.Type(), fmt.Sprintf("(%s_%s %s)", s, f.Name(), x), alloc, depth+1)...)
+		}
+	}
+	return out
+}
+
 func smtIdent(s string) string {
 	r := strings.NewReplacer("/", "_", ".", "_", "*", "P", "(", "", ")", "", " ", "_", "$", "S", "#", "_", "[", "_", "]", "_", ",", "_", "-", "_", "<", "_", ">", "_", "\"", "", "'", "", ":", "_", "{", "_", "}", "_", ";", "_", "%", "_")
 	return r.Replace(s)
